@@ -71,6 +71,8 @@ pub struct Case {
     pub fault: Option<Fault>,
     pub k1_sites: usize,
     pub k2_sites: usize,
+    /// number of files included a second time
+    pub reincludes: usize,
     /// directory all files live in
     pub dir: String,
 }
@@ -109,6 +111,7 @@ struct G<'a, 'b> {
     cur_file: usize,
     include_depth: usize,
     n_inc: usize,
+    reincludes: usize,
 }
 
 impl<'a, 'b> G<'a, 'b> {
@@ -550,10 +553,35 @@ impl<'a, 'b> G<'a, 'b> {
             let ws = self.nl();
             return Some(Item::Include { id: self.uid(), name: "no_such_file.svh".to_string(), style: IncStyle::Quote, ws_after: ws });
         }
+        // include a file a second time: only files made of plain text and `define lines (their effect on the
+        // live table is replayed here)
+        if self.t.chance(1, 5) {
+            let again: Vec<(String, usize)> = self
+                .resolve
+                .iter()
+                .filter_map(|(name, r)| r.as_ref().map(|r| (name.clone(), r.file)))
+                .filter(|(_, fi)| *fi != self.cur_file && self.files[*fi].items.iter().all(|it| matches!(it, Item::Text(_) | Item::Define(_, _))) && !self.files[*fi].items.is_empty())
+                .collect();
+            if !again.is_empty() {
+                let mut again = again;
+                again.sort();
+                let (name, fi) = again[self.t.below(again.len())].clone();
+                let defs: Vec<MacroDef> = self.files[fi].items.iter().filter_map(|it| if let Item::Define(d, _) = it { Some(d.clone()) } else { None }).collect();
+                for d in defs {
+                    if d.name != "__FILE__" && d.name != "__LINE__" {
+                        self.table.insert(d.name.clone(), Some(MDef { def: d, origin: DefOrigin::File(fi) }));
+                    }
+                }
+                self.reincludes += 1;
+                let ws = self.nl();
+                let id = self.uid();
+                return Some(Item::Include { id, name, style: IncStyle::Quote, ws_after: ws });
+            }
+        }
         if self.include_depth >= 3 || self.n_inc >= 6 {
             return None;
         }
-        // re-include an existing self-contained file, or create a new one
+        // create a new file
         self.n_inc += 1;
         let k = self.n_inc;
         let name = if self.t.chance(1, 4) { format!("sub/inc{}.svh", k) } else { format!("inc{}.svh", k) };
@@ -852,6 +880,7 @@ pub fn generate(t: &mut Tape, cfg: &PpCfg, dir: &str) -> Case {
         cur_file: 0,
         include_depth: 0,
         n_inc: 0,
+        reincludes: 0,
     };
     // caller-supplied defines
     let mut initial = Table::new();
@@ -896,6 +925,7 @@ pub fn generate(t: &mut Tape, cfg: &PpCfg, dir: &str) -> Case {
         fault: g.fault,
         k1_sites: g.k1_sites,
         k2_sites: g.k2_sites,
+        reincludes: g.reincludes,
         dir: g.dir,
     }
 }
